@@ -1,6 +1,7 @@
 import VrlProofs.Lemmas.TypeOps
 import VrlProofs.Lemmas.TypeAssign
 import VrlProofs.Lemmas.TypeEffect
+import VrlProofs.Lemmas.TypeConst
 
 /-! Soundness of the type inference for one evaluation step (C01 a/d, C02 b, C12 c), as an
     invariant `Sound` proved by structural recursion over the mutual `Expr`/`Exprs`/`KExprs`.
@@ -10,14 +11,13 @@ namespace Lang
 open Spec
 
 /-- what soundness says about the outcome of evaluating an expression typed `td` (state after: `T'`,
-    constant: `c`, side conditions: `cs`):
+    side conditions: `cs`):
     (a) a value is a result of the reported kind, a `return`ed value of the reported `returns`;
     (b) a run-time error only if typed fallible, or float arithmetic is involved (NaN);
-    (c) a value equals the compile-time constant;
-    (d) on success the new run-time state inhabits the new type state. -/
-def Sound (td : TypeDef) (T' : TState) (c : Option Value) (cs : List Chk) : Res × St → Prop
-  | (.ok v, s') =>
-    memR v td.kind = true ∧ v.Sorted = true ∧ Conforms s' T' ∧ ∀ cv, c = some cv → v = cv
+    (d) on success the new run-time state inhabits the new type state.
+    ((c), constants, is `Lang.const_eval`: it needs no side condition.) -/
+def Sound (td : TypeDef) (T' : TState) (cs : List Chk) : Res × St → Prop
+  | (.ok v, s') => memR v td.kind = true ∧ v.Sorted = true ∧ Conforms s' T'
   | (.ret v, _) => memR v td.returns = true
   | (.err, _) => td.fallible = true ∨ Chk.nan ∈ cs
   | _ => True
@@ -25,44 +25,24 @@ def Sound (td : TypeDef) (T' : TState) (c : Option Value) (cs : List Chk) : Res 
 /-- the induction hypothesis for a sub-expression -/
 def IH (e : Expr) : Prop :=
   ∀ (T : TState) (s : St), AllNan (checks e T) → Conforms s T →
-    Sound (typeInfo e T).1 (typeInfo e T).2 (constOf e T) (checks e T) (eval e s)
+    Sound (typeInfo e T).1 (typeInfo e T).2 (checks e T) (eval e s)
 
-theorem Sound.mono_cs {td : TypeDef} {T' : TState} {c : Option Value} {cs cs' : List Chk}
-    {out : Res × St} (h : Sound td T' c cs out) (hsub : ∀ x ∈ cs, x ∈ cs') : Sound td T' c cs' out := by
+theorem Sound.mono_cs {td : TypeDef} {T' : TState} {cs cs' : List Chk}
+    {out : Res × St} (h : Sound td T' cs out) (hsub : ∀ x ∈ cs, x ∈ cs') : Sound td T' cs' out := by
   obtain ⟨r, s⟩ := out
   cases r <;> simp only [Sound] at h ⊢ <;> try exact h
   rcases h with h | h
   · exact Or.inl h
   · exact Or.inr (hsub _ h)
 
-/-! ### `resolve_constant` of the forms that have none -/
-
-@[simp] theorem constOf_noop (T : TState) : constOf .noop T = none := by simp [constOf]
-@[simp] theorem constOf_blk (es : Exprs) (T : TState) : constOf (.blk es) T = none := by simp [constOf]
-@[simp] theorem constOf_ifte (p t : Exprs) (h : Bool) (e : Exprs) (T : TState) :
-    constOf (.ifte p t h e) T = none := by simp [constOf]
-@[simp] theorem constOf_asg (t : Tgt) (e : Expr) (T : TState) : constOf (.asg t e) T = none := by simp [constOf]
-@[simp] theorem constOf_iasg (a b : Tgt) (e : Expr) (d : Value) (T : TState) :
-    constOf (.iasg a b e d) T = none := by simp [constOf]
-@[simp] theorem constOf_qext (m : Bool) (p : Path) (T : TState) : constOf (.qext m p) T = none := by simp [constOf]
-@[simp] theorem constOf_qexpr (e : Expr) (p : Path) (T : TState) : constOf (.qexpr e p) T = none := by simp [constOf]
-@[simp] theorem constOf_not (e : Expr) (T : TState) : constOf (.not e) T = none := by simp [constOf]
-@[simp] theorem constOf_abort (h : Bool) (e : Expr) (T : TState) : constOf (.abort h e) T = none := by simp [constOf]
-@[simp] theorem constOf_ret (e : Expr) (T : TState) : constOf (.ret e) T = none := by simp [constOf]
-@[simp] theorem constOf_delExt (m : Bool) (p : Path) (h : Bool) (c : Expr) (T : TState) :
-    constOf (.delExt m p h c) T = none := by simp [constOf]
-@[simp] theorem constOf_existsExt (m : Bool) (p : Path) (T : TState) : constOf (.existsExt m p) T = none := by simp [constOf]
-@[simp] theorem constOf_existsVar (n : String) (p : Path) (T : TState) : constOf (.existsVar n p) T = none := by simp [constOf]
-@[simp] theorem constOf_existsExpr (e : Expr) (p : Path) (T : TState) : constOf (.existsExpr e p) T = none := by simp [constOf]
-
 /-! ### leaves -/
 
 theorem sound_lit (v : Value) : IH (.lit v) := by
   intro T s hk hc
-  rw [typeInfo, constOf, eval]
+  rw [typeInfo, eval]
   rw [checks, allNan_chk (by decide)] at hk
   simp only [Sound]
-  refine ⟨?_, ?_, hc, fun cv h => by cases h; rfl⟩
+  refine ⟨?_, ?_, hc⟩
   · cases v <;> simp [isContainerLit] at hk <;>
       simp [litKind, TypeDef.ofKind, memR, mem, Kind.null, Kind.boolean, Kind.integer, Kind.float,
         Kind.bytes, Kind.timestamp, Kind.regex, Kind.prim]
@@ -70,13 +50,13 @@ theorem sound_lit (v : Value) : IH (.lit v) := by
 
 theorem sound_noop : IH .noop := by
   intro T s _ hc
-  rw [typeInfo, constOf_noop, eval]
+  rw [typeInfo, eval]
   simp only [Sound]
-  exact ⟨by simp [TypeDef.null, TypeDef.ofKind, memR, mem, Kind.null, Kind.prim], rfl, hc, fun cv h => by cases h⟩
+  exact ⟨by simp [TypeDef.null, TypeDef.ofKind, memR, mem, Kind.null, Kind.prim], rfl, hc⟩
 
 theorem sound_var (n : String) : IH (.var n) := by
   intro T s hk hc
-  rw [typeInfo, constOf, eval]
+  rw [typeInfo, eval]
   rw [checks, allNan_chk (by decide)] at hk
   simp only [Sound]
   cases hd : T.getVar n with
@@ -84,11 +64,11 @@ theorem sound_var (n : String) : IH (.var n) := by
   | some d =>
     obtain ⟨v, h1, h2, h3, h4⟩ := hc.vars n d hd
     simp only [h1, Option.getD_some, varDef, hd, Option.bind_some]
-    exact ⟨memR_of_mem h2, h3, hc, h4⟩
+    exact ⟨memR_of_mem h2, h3, hc⟩
 
 theorem sound_qvar (n : String) (p : Path) : IH (.qvar n p) := by
   intro T s hk hc
-  rw [typeInfo, constOf, eval]
+  rw [typeInfo, eval]
   rw [checks] at hk
   simp only [allNan_append] at hk
   rw [allNan_chk (by decide), allNan_chk (by decide)] at hk
@@ -101,16 +81,7 @@ theorem sound_qvar (n : String) (p : Path) : IH (.qvar n p) := by
     simp only [varDef, hd] at hat
     have := memR_atPath (memR_of_mem h2) h3 hat
     simp only [h1, Option.getD_some, varDef, hd, Option.bind_some, TypeDef.atPath]
-    refine ⟨this.1, this.2, hc, ?_⟩
-    intro cv hcv
-    cases hv : d.value with
-    | none => rw [hv] at hcv; cases hcv
-    | some c0 =>
-      rw [hv] at hcv
-      simp only [Option.bind_some] at hcv
-      have := h4 c0 hv
-      subst this
-      rw [hcv]; rfl
+    exact ⟨this.1, this.2, hc⟩
 
 theorem targetGet_eq (s : St) (hf : s.faults = []) (m : Bool) (p : Path) :
     (s.targetGet m p).1 = (if m then s.metadata else s.event).get p ∧ St.Same s (s.targetGet m p).2 := by
@@ -120,7 +91,7 @@ theorem targetGet_eq (s : St) (hf : s.faults = []) (m : Bool) (p : Path) :
 
 theorem sound_qext (m : Bool) (p : Path) : IH (.qext m p) := by
   intro T s hk hc
-  rw [typeInfo, constOf_qext, eval]
+  rw [typeInfo, eval]
   rw [checks, allNan_chk (by decide)] at hk
   obtain ⟨h1, h2⟩ := targetGet_eq s hc.faults m p
   cases hq : s.targetGet m p with
@@ -133,25 +104,293 @@ theorem sound_qext (m : Bool) (p : Path) : IH (.qext m p) := by
     | false =>
       simp only [TState.extKind, Bool.false_eq_true, if_false] at hk ⊢
       have := memR_atPath (memR_of_mem hc.event) hc.eventSorted hk
-      exact ⟨this.1, this.2, Conforms.of_same h2 hc, fun cv h => by cases h⟩
+      exact ⟨this.1, this.2, Conforms.of_same h2 hc⟩
     | true =>
       simp only [TState.extKind, if_true] at hk ⊢
       have := memR_atPath (memR_of_mem hc.metadata) hc.metadataSorted hk
-      exact ⟨this.1, this.2, Conforms.of_same h2 hc, fun cv h => by cases h⟩
+      exact ⟨this.1, this.2, Conforms.of_same h2 hc⟩
 
 theorem sound_existsExt (m : Bool) (p : Path) : IH (.existsExt m p) := by
   intro T s _ hc
-  rw [typeInfo, constOf_existsExt, eval]
+  rw [typeInfo, eval]
   have h2 := same_targetGet s m p
   cases hq : s.targetGet m p with
   | mk r s1 =>
     rw [hq] at h2
     simp only [Sound]
-    exact ⟨memR_bool _, rfl, Conforms.of_same h2 hc, fun cv h => by cases h⟩
+    exact ⟨memR_bool _, rfl, Conforms.of_same h2 hc⟩
 
 theorem sound_existsVar (n : String) (p : Path) : IH (.existsVar n p) := by
   intro T s _ hc
-  rw [typeInfo, constOf_existsVar, eval]
-  split <;> (simp only [Sound]; exact ⟨memR_bool _, rfl, hc, fun cv h => by cases h⟩)
+  rw [typeInfo, eval]
+  split <;> (simp only [Sound]; exact ⟨memR_bool _, rfl, hc⟩)
+
+/-! ### one operand -/
+
+theorem sound_grp (e : Expr) (ih : IH e) : IH (.grp e) := by
+  intro T s hk hc
+  rw [typeInfo, eval, checks]
+  rw [checks] at hk
+  exact ih T s hk hc
+
+theorem sound_not (e : Expr) (ih : IH e) : IH (.not e) := by
+  intro T s hk hc
+  rw [checks] at hk
+  simp only [allNan_append] at hk
+  rw [allNan_chk (by decide)] at hk
+  have h := ih T s hk.1 hc
+  rw [typeInfo, eval, checks]
+  cases hq : eval e s with
+  | mk r s1 =>
+    rw [hq] at h
+    cases r with
+    | ok v =>
+      simp only [Sound] at h
+      obtain ⟨b, rfl⟩ := memR_isBoolean hk.2 h.1
+      simp only [Sound]
+      exact ⟨memR_bool _, rfl, h.2.2⟩
+    | err =>
+      simp only [Sound] at h ⊢
+      rcases h with h | h
+      · exact Or.inl h
+      · exact Or.inr (List.mem_append_left _ h)
+    | ret v => simp only [Sound] at h ⊢; exact h
+    | _ => trivial
+
+theorem sound_qexpr (e : Expr) (p : Path) (ih : IH e) : IH (.qexpr e p) := by
+  intro T s hk hc
+  rw [checks] at hk
+  simp only [allNan_append] at hk
+  rw [allNan_chk (by decide)] at hk
+  have h := ih T s hk.1 hc
+  rw [typeInfo, eval, checks]
+  cases hq : eval e s with
+  | mk r s1 =>
+    rw [hq] at h
+    cases r with
+    | ok v =>
+      simp only [Sound] at h ⊢
+      have := memR_atPath h.1 h.2.1 hk.2
+      exact ⟨this.1, this.2, h.2.2⟩
+    | err =>
+      simp only [Sound] at h ⊢
+      rcases h with h | h
+      · exact Or.inl h
+      · exact Or.inr (List.mem_append_left _ h)
+    | ret v => simp only [Sound] at h ⊢; exact h
+    | _ => trivial
+
+theorem sound_existsExpr (e : Expr) (p : Path) (ih : IH e) : IH (.existsExpr e p) := by
+  intro T s hk hc
+  rw [checks] at hk
+  simp only [allNan_append] at hk
+  rw [allNan_chk (by decide), allNan_chk (by decide)] at hk
+  have h := ih T s hk.1.1 hc
+  rw [typeInfo, eval, checks]
+  cases hq : eval e s with
+  | mk r s1 =>
+    rw [hq] at h
+    cases r with
+    | ok v =>
+      simp only [Sound] at h ⊢
+      exact ⟨memR_bool _, rfl, h.2.2⟩
+    | err =>
+      simp only [Sound] at h ⊢
+      rcases h with h | h
+      · have := hk.1.2; simp [h] at this
+      · exact Or.inr (List.mem_append_left _ (List.mem_append_left _ h))
+    | ret v =>
+      simp only [Sound] at h ⊢
+      rw [memR_never v _ hk.2] at h; cases h
+    | _ => trivial
+
+/-! ### `return`, `abort` -/
+
+theorem sound_ret (e : Expr) (ih : IH e) : IH (.ret e) := by
+  intro T s hk hc
+  rw [checks] at hk
+  simp only [allNan_append] at hk
+  rw [allNan_chk (by decide), allNan_chk (by decide)] at hk
+  have h := ih T s hk.1.1 hc
+  rw [typeInfo, eval, checks]
+  cases hq : eval e s with
+  | mk r s1 =>
+    rw [hq] at h
+    cases r with
+    | ok v => simp only [Sound] at h ⊢; exact h.1
+    | err =>
+      simp only [Sound] at h ⊢
+      rcases h with h | h
+      · have := hk.1.2; simp [h] at this
+      · exact Or.inr (List.mem_append_left _ (List.mem_append_left _ h))
+    | ret v =>
+      simp only [Sound] at h ⊢
+      rw [memR_never v _ hk.2] at h; cases h
+    | _ => trivial
+
+theorem sound_abort (hasMsg : Bool) (msg : Expr) (ih : IH msg) : IH (.abort hasMsg msg) := by
+  intro T s hk hc
+  rw [checks] at hk
+  rw [typeInfo, eval, checks]
+  cases hasMsg with
+  | false => simp [Sound]
+  | true =>
+    simp only [if_true, allNan_append] at hk ⊢
+    rw [allNan_chk (by decide)] at hk
+    simp only [Bool.and_eq_true, Bool.not_eq_true'] at hk
+    have h := ih T s hk.1 hc
+    cases hq : eval msg s with
+    | mk r s1 =>
+      rw [hq] at h
+      cases r with
+      | ok v =>
+        simp only [Sound] at h
+        obtain ⟨b, rfl⟩ := memR_isBytes hk.2.1 h.1
+        simp only
+        split <;> trivial
+      | err =>
+        simp only [Sound] at h ⊢
+        rcases h with h | h
+        · rw [hk.2.2] at h; cases h
+        · exact Or.inr (List.mem_append_left _ h)
+      | ret v => simp only [Sound] at h ⊢; exact h
+      | _ => trivial
+
+/-! ### assignments -/
+
+/-- the constant `Assignment::type_info` records (taken in the state *after* the right-hand side)
+    is the value assigned -/
+theorem asg_const {e : Expr} {T : TState} {s s1 : St} {v : Value} (hc : Conforms s T)
+    (he : eval e s = (.ok v, s1)) : ∀ cv, constOf e (typeInfo e T).2 = some cv → v = cv := by
+  intro cv hcv
+  have hst : (typeInfo e T).2 = T := const_state hcv
+  rw [hst] at hcv
+  obtain ⟨s', h1, _⟩ := const_eval e T cv hcv s hc
+  rw [he] at h1
+  cases h1; rfl
+
+/-- … and an expression with a constant does not fail -/
+theorem asg_const_no_err {e : Expr} {T : TState} {s s1 : St} (hc : Conforms s T)
+    (he : eval e s = (.err, s1)) : constOf e (typeInfo e T).2 = none := by
+  cases hcv : constOf e (typeInfo e T).2 with
+  | none => rfl
+  | some cv =>
+    have hst : (typeInfo e T).2 = T := const_state hcv
+    rw [hst] at hcv
+    obtain ⟨s', h1, _⟩ := const_eval e T cv hcv s hc
+    rw [he] at h1
+    cases h1
+
+theorem sound_asg (t : Tgt) (e : Expr) (ih : IH e) : IH (.asg t e) := by
+  intro T s hk hc
+  rw [checks] at hk
+  simp only [allNan_append] at hk
+  have h := ih T s hk.1 hc
+  rw [typeInfo, eval, checks]
+  cases hq : eval e s with
+  | mk r s1 =>
+    rw [hq] at h
+    cases r with
+    | ok v =>
+      simp only [Sound] at h
+      simp only
+      cases hi : t.insert v s1 with
+      | none => trivial
+      | some s2 =>
+        simp only [Sound]
+        exact ⟨h.1, h.2.1, tgt_insert_conforms t v _ _ h.2.2 h.1 h.2.1 (asg_const hc hq) hk.2 hi⟩
+    | err =>
+      simp only [Sound] at h ⊢
+      rcases h with h | h
+      · exact Or.inl h
+      · exact Or.inr (List.mem_append_left _ h)
+    | ret v => simp only [Sound] at h ⊢; exact h
+    | _ => trivial
+
+theorem mem_orBytes_of_mem (w : Value) (k : Kind) (h : mem w k = true) : mem w k.orBytes = true := by
+  cases k with
+  | mk p a o =>
+    cases w <;> simp [mem, Kind.orBytes, Kind.prim, Kind.hasArr, Kind.hasObj, arrayD, objectD,
+      Kind.array, Kind.object] at h ⊢ <;> try exact h
+    all_goals (cases a <;> cases o <;> simp_all [Kind.hasArr, Kind.hasObj, Kind.array, Kind.object])
+
+theorem memR_orBytes {v : Value} {K : Kind} (h : memR v K = true) : memR v K.orBytes = true := by
+  rcases (memR_iff v K).mp h with h1 | ⟨h1, h2⟩
+  · exact memR_of_mem (mem_orBytes_of_mem v K h1)
+  · refine (memR_iff _ _).mpr (Or.inr ⟨h1, ?_⟩)
+    cases K with
+    | mk p a o => simpa [Kind.orBytes, Kind.prim] using h2
+
+theorem memR_bytes_orBytes (b : List Nat) (K : Kind) : memR (.bytes b) K.orBytes = true := by
+  cases K with
+  | mk p a o => simp [memR, mem, Kind.orBytes, Kind.prim]
+
+theorem memR_bytes_bytesNull (b : List Nat) : memR (.bytes b) (TypeDef.ofKind bytesNull).kind = true := by
+  simp [memR, mem, TypeDef.ofKind, bytesNull, Kind.bytes, Kind.orNull, Kind.prim]
+
+theorem sound_iasg (okT errT : Tgt) (e : Expr) (dflt : Value) (ih : IH e) : IH (.iasg okT errT e dflt) := by
+  intro T s hk hc
+  rw [checks] at hk
+  simp only [allNan_append] at hk
+  obtain ⟨⟨⟨⟨⟨hk1, hk2⟩, hk3⟩, hk4⟩, hk5⟩, hk6⟩ := hk
+  rw [allNan_chk (by decide)] at hk2 hk3 hk4
+  have hc0 : Conforms { s with evCatch := true } T := Conforms.of_same (s := s) ⟨rfl, rfl, rfl, rfl⟩ hc
+  have h := ih T _ hk1 hc0
+  rw [typeInfo, eval, checks]
+  cases hq : eval e { s with evCatch := true } with
+  | mk r s1 =>
+    rw [hq] at h
+    cases r with
+    | ok v =>
+      simp only [Sound] at h
+      simp only
+      cases hi : okT.insert v s1 with
+      | none => trivial
+      | some s2 =>
+        simp only
+        have c2 := tgt_insert_conforms okT v
+          ((typeInfo e T).1.union (TypeDef.ofKind dflt.kindOf)).infallible
+          (constOf e (typeInfo e T).2) h.2.2 (memR_union_left hk4 h.1) h.2.1 (asg_const hc0 hq) hk5 hi
+        cases hi2 : errT.insert .null s2 with
+        | none => trivial
+        | some s3 =>
+          simp only [Sound]
+          refine ⟨memR_orBytes h.1, h.2.1, ?_⟩
+          exact tgt_insert_conforms errT .null (TypeDef.ofKind bytesNull) none c2 (by decide) rfl
+            (fun cv h => by cases h) hk6 hi2
+    | err =>
+      -- the failed right-hand side left the state alone (`effectFree`)
+      have hsame := effectFree_same e hk2 { s with evCatch := true }
+      rw [hq] at hsame
+      have c1 : Conforms s1 (typeInfo e T).2 :=
+        Conforms.of_same hsame (effectFree_conforms e hk2 T hk1 hc0)
+      simp only
+      cases hi : okT.insert dflt s1 with
+      | none => trivial
+      | some s2 =>
+        simp only
+        have hd : mem dflt dflt.kindOf = true := C19.mem_kindOf dflt hk3
+        have c2 := tgt_insert_conforms okT dflt
+          ((typeInfo e T).1.union (TypeDef.ofKind dflt.kindOf)).infallible
+          (constOf e (typeInfo e T).2) c1 (memR_union_right hk4 (memR_of_mem hd)) hk3
+          (by rw [asg_const_no_err hc0 hq]; intro cv h; cases h) hk5 hi
+        cases hm : s2.errs with
+        | nil => trivial
+        | cons msg rest =>
+          simp only
+          have c2' : Conforms { s2 with errs := rest } (okT.insertTypeDef (typeInfo e T).2
+              ((typeInfo e T).1.union (TypeDef.ofKind dflt.kindOf)).infallible
+              (constOf e (typeInfo e T).2)) := Conforms.of_same (s := s2) ⟨rfl, rfl, rfl, rfl⟩ c2
+          cases hi2 : errT.insert (.bytes msg) { s2 with errs := rest } with
+          | none => trivial
+          | some s3 =>
+            simp only [Sound]
+            refine ⟨memR_bytes_orBytes msg _, rfl, ?_⟩
+            exact tgt_insert_conforms errT (.bytes msg) (TypeDef.ofKind bytesNull) none c2' (memR_bytes_bytesNull msg) rfl
+              (fun cv h => by cases h) hk6 hi2
+    | ret v =>
+      simp only [Sound] at h ⊢
+      exact h
+    | _ => trivial
 
 end Lang
